@@ -335,6 +335,14 @@ def run(ctx):
     ctx.rule("R12.11", "no function of the options code reads a local / parameter after handing it to std::move (e.g. asking a moved-from token whether it was `--`)")
     from .common import rule_no_use_after_move
     rule_no_use_after_move(ctx, "R12.11", lambda f: "/options/" in f.file, "a moved-from token has an empty text: it is never `--`, so what follows the separator is not taken verbatim", minimum=40)
+    # ---- R12.12: a command line within the accepted count is parsed - not refused by a standard-library precondition
+    # (reserving room for `accepted count` positionals throws std::length_error for a huge finite count before a token is read)
+    ctx.rule("R12.12", "every std thrower (reserve / resize / substr / at ...) reachable from parse() is discharged in its calling contexts: whether parsing succeeds depends on the number of positionals given, not on the size of the accepted number")
+    ents = [g for g in (prog.fn(PARSE_VEC), prog.fn(PARSE_ARGV)) if g is not None and g.has_cfg]
+    if ctx.anchor("R12.12", "parser::parse", bool(ents)):
+        nthr, nctx = C04.std_thrower_obligations(ctx, "R12.12", ents, "parse", callgraph(ctx))
+        ctx.note("R12.12: %d std thrower site(s) in %d calling context(s) from parse()" % (nthr, nctx))
+        ctx.need("R12.12", "calling contexts walked from parse()", nctx, 20)
     # ---- R12.9: the accepted count is stored as wide as it is given
     ctx.rule("R12.9", "parser's integral settings are stored at least as wide as the setter's parameter (an accepted count of 2^32 or more is not reduced modulo 2^32)")
     from .common import rule_no_narrowing
